@@ -98,7 +98,13 @@ if __name__ == "__main__":
     except SystemExit:
         raise
     except BaseException as e:  # noqa
-        print(f"ANALYSIS-ERROR ttsa crashed: {type(e).__name__}: {e}")
+        try:
+            print(f"ANALYSIS-ERROR ttsa crashed: {type(e).__name__}: {e}")
+        except BrokenPipeError:
+            pass
         rc = 2
-    sys.stdout.flush()
+    try:
+        sys.stdout.flush()
+    except BrokenPipeError:
+        pass
     os._exit(rc)
